@@ -68,6 +68,8 @@ func (c *Config) load(configPath string, isGlobal bool) error {
 	var ident string
 	buf := bytes.NewReader(b)
 	scanner := bufio.NewScanner(buf)
+	// a value may be longer than the scanner's default 64 KiB token limit
+	scanner.Buffer(nil, len(b)+1)
 	for scanner.Scan() {
 		text := scanner.Text()
 		if strings.TrimSpace(text) == "" {
